@@ -47,7 +47,10 @@ RULE = ('a case is one history prefix (node of the enumeration tree, or one rand
         'up to symmetry (connections and names in order of first appearance); distinct = distinct token list; '
         'non-trivial = at least one name has an owner when the last operation runs')
 
-NAMES = ['com.example.alpha', 'org.b.c2']
+# 0, 1: the two names of the enumerations; 2, 3: differ from name 0 in case only / are a prefix of it
+NAMES = ['com.example.alpha', 'org.b.c2', 'Com.Example.Alpha', 'com.example']
+RULES = ["type='signal',interface='com.example.Nothing',member='Nope'",
+         "type='signal',interface='org.freedesktop.DBus',member='NameOwnerChanged'"]
 BUS = 'org.freedesktop.DBus'
 PATH = '/org/freedesktop/DBus'
 ERRP = 'org.freedesktop.DBus.Error.'
@@ -138,8 +141,11 @@ class World:
         return k
 
     def events(self, serial, kind):
-        """Canonical events from self.raw (in order).  Returns a list of strings or 'ERR:x'."""
+        """Canonical events from self.raw (in order).  Returns a list of strings or 'ERR:x'.
+        Deliveries of NameOwnerChanged through match rules are C14's subject and dropped (the broadcast
+        itself is recorded at broadcastSignal); for other traffic (kind 'x') only name signals are kept."""
         out = []
+        other = kind == 'x'
         for owner, payload in self.raw:
             if owner is None:
                 member, body = payload
@@ -156,8 +162,13 @@ class World:
                     tag = {'NameAcquired': 'A', 'NameLost': 'L'}.get(m.member)
                     if tag and m.interface == BUS and m.body and len(m.body) == 1:
                         out.append('%s%d:%s' % (tag, owner, self.nidx(m.body[0])))
+                    elif (m.member == 'NameOwnerChanged' and m.interface == BUS) or other:
+                        pass
                     else:
                         out.append('S%d:%s' % (owner, m.member))
+                elif other:
+                    if mt == 3 and m.error_name.startswith(PYEXC):
+                        return 'ERR:' + exc_kind(m.error_name[len(PYEXC):])
                 elif mt == 2:
                     if serial is None or m.reply_serial != serial:
                         out.append('R%d:unexpected' % owner)
@@ -192,6 +203,9 @@ class World:
                 from twisted.python.failure import Failure
                 from twisted.internet.error import ConnectionDone
                 p.connectionLost(Failure(ConnectionDone()))
+                return self.events(None, kind)
+            if kind == 'x':
+                self.other_traffic(p, c, args[1] if len(args) > 1 else 0)
                 return self.events(None, kind)
             name = NAMES[args[1]]
             if self.mode == 'bytes':
@@ -229,7 +243,27 @@ class World:
         except Exception as e:   # escapes dataReceived / the direct call
             return 'ERR:' + exc_kind(type(e).__name__)
 
-    # -- observation of the live tables
+    def other_traffic(self, p, c, k):
+        """Bus traffic that is not a name operation (must leave the name tables alone)."""
+        msg = self.message
+        if self.mode != 'bytes':
+            if k in (0, 1):
+                self.bus.dbus_AddMatch(RULES[k], dbusCaller=':1.%d' % c)
+            elif k == 3:
+                self.bus.dbus_GetId()
+            return
+        if k in (0, 1):      # AddMatch: the connection now has a rule that clientDisconnected must remove
+            m = self.call_msg('AddMatch', 's', [RULES[k]])
+        elif k == 2:         # a method call to a well-known name (forwarded to its owner, if any)
+            m = msg.MethodCallMessage('/com/example/Obj', 'Frob', interface='com.example.Iface',
+                                      destination=NAMES[0], signature='s', body=['x'])
+        elif k == 3:
+            m = self.call_msg('GetId')
+        else:                # a signal of the client's own, routed through the match rules
+            m = msg.SignalMessage('/com/example/Obj', 'Changed', 'com.example.Iface', signature='u', body=[7])
+        p.dataReceived(m.rawMessage)
+
+    # -- observation of the live tables (for the correspondence with the model, S3, only)
     def queues(self):
         """name index -> list of k (live Bus.busNames)"""
         return {self.nidx(n): [self.kof(p) for p in q] for n, q in self.bus.busNames.items()}
